@@ -3,6 +3,7 @@ package sim
 // fsOp is a parked call of the simulated os (see simfs.go).
 type fsOp struct {
 	err error
+	n   int
 	run func()
 }
 
@@ -12,6 +13,8 @@ func (s *Sim) fsAction(p *park) Action {
 		if op.run != nil {
 			op.run()
 		}
-		s.unpark(p)
+		if !s.Stopped {
+			s.unpark(p)
+		}
 	}}
 }
